@@ -1,6 +1,6 @@
 (* Extraction of the executable model and acceptors to OCaml (ExtrOcamlBasic only). *)
 From Coq Require Import ExtrOcamlBasic.
-From W Require Import model.Base model.Fnv model.Utf8 model.Sanitize model.WalKey model.Engine model.EngineCfg spec.Queue spec.Crash model.Frame spec.FrameSpec model.Map model.Bincode model.Meta model.Adapter model.RaftStore spec.RaftSpec model.Hdr spec.Damage model.Durable spec.PowerLoss model.Clean spec.CleanSpec model.Trk model.Cluster model.ClusterSys spec.StreamSpec spec.ClusterClass.
+From W Require Import model.Base model.Fnv model.Utf8 model.Sanitize model.WalKey model.Engine model.EngineCfg spec.Queue spec.Crash model.Frame spec.FrameSpec model.Map model.Bincode model.Meta model.Adapter model.RaftStore spec.RaftSpec model.Hdr spec.Damage model.Durable spec.PowerLoss model.Clean spec.CleanSpec model.Trk model.Cluster model.ClusterSys spec.StreamSpec spec.ClusterClass model.Conc spec.ConcSpec.
 Extraction "model.ml"
   N.add N.mul N.div N.modulo N.eqb N.ltb N.leb N.sub N.of_nat N.to_nat
   checksum64 utf8_encode utf8_decode
@@ -20,4 +20,5 @@ Extraction "model.ml"
   c10_strict_ok c10_appends_ok
   k_init k_step k_quiet k_accept k_c17_ok
   trk0 trk_run trk_requests contract_ok c12_trace_ok marks_repeated reregistered
-  cl_init cl_step cl_run cl_trace c22_verdict c23_verdict c23_foreign_ok cl_classes c22_known c23_known seq_trace fenced_trace c22_seq_ok.
+  cl_init cl_step cl_run cl_trace c22_verdict c23_verdict c23_foreign_ok cl_classes c22_known c23_known seq_trace fenced_trace c22_seq_ok
+  cinit cstep run_schedule crun_from ccomplete cresults threads_done conc_unmodelled kflags0 kstep c05_run_ok c05_ok events_all offered_pids.
